@@ -34,3 +34,21 @@ Proof.
   destruct (decode root) as [| |d] eqn:E; try (split; reflexivity).
   apply build_no_effects; assumption.
 Qed.
+
+(* C19: the display path (load without evaluation + graph construction for validation) adds no effect *)
+Lemma graph_nodes_quiet : forall e ss, quiet e (graph_nodes ss).
+Proof.
+  intros e. induction ss as [|s r IH]; simpl; [apply quiet_ret|].
+  apply quiet_bind; [apply quiet_ret|]. intros x. apply quiet_bind; [exact IH | intros; apply quiet_ret].
+Qed.
+
+Theorem display_no_effects :
+  forall (cron : string -> cronv) (sig_ok : string -> bool) (tokenize : string -> list (string * string))
+         (sh : string -> option string) (o : opts) (root : yv) (e : envt),
+  o_noEval o = true ->
+  effects (display cron sig_ok tokenize sh o root e) = [] /\ env_after (display cron sig_ok tokenize sh o root e) = e.
+Proof.
+  intros cron sig_ok tokenize sh o root e Hn. change (quiet e (display cron sig_ok tokenize sh o root)).
+  unfold display. apply quiet_bind; [exact (load_no_effects cron sig_ok tokenize sh o root e Hn)|].
+  intros g. apply quiet_bind; [apply graph_nodes_quiet | intros; apply quiet_ret].
+Qed.
